@@ -3,7 +3,7 @@
    independent client-side reading of the byte stream; [resp_ok h r] is the
    property's list of requirements on the response to a request with header h. *)
 From MC Require Import Model.Base Model.Generated Model.Store Model.Memc Model.Codec Model.Handler
-  Spec.Quiet Spec.Wire Proofs.Decimal Proofs.CodecLemmas Proofs.PC11 Proofs.PGuards Model.RustInt.
+  Spec.Quiet Spec.Wire Proofs.Decimal Proofs.CodecLemmas Proofs.PC11 Proofs.PGuards Proofs.PBody Model.RustInt.
 
 (* for every request the decoder can produce and every store state: magic 0x81,
    opcode and opaque echoed, data type 0, status from the protocol's table, body
@@ -66,3 +66,18 @@ Theorem C11_response_layout_is_source : src_response_layout_ok = true ->
   forall h, encode_rheader h = write_layout src_response_layout (rheader_field h).
 Proof. exact response_layout_is_source. Qed.
 Print Assumptions C11_response_layout_is_source.
+
+(* what follows the header is, for each kind of response (1 error, 2 get, 3 plain,
+   4 quit, 5 version, 6 counter), what the arm of the source's encode_data — what the
+   connection sends — and of write_data — the Encoder impl — writes, in that order
+   (translated on every run; fields: 1 error text, 2 flags, 3 key, 4 value, 5 version,
+   6 counter value) *)
+Theorem C11_encode_data_is_source : src_encode_data_ok = true ->
+  forall r, encode r = encode_rheader (resp_header r) ++ write_fields (writes_of (resp_group r) src_encode_data) r.
+Proof. exact encode_data_is_source. Qed.
+Print Assumptions C11_encode_data_is_source.
+
+Theorem C11_write_data_is_source : src_write_data_ok = true ->
+  forall r, encode r = encode_rheader (resp_header r) ++ write_fields (writes_of (resp_group r) src_write_data) r.
+Proof. exact write_data_is_source. Qed.
+Print Assumptions C11_write_data_is_source.
